@@ -23,7 +23,10 @@ recognises), that is a broken tie, not a harness failure: the cases are still ru
 oracle, the search runs, and the report is `no-failing-input-found` with the missing accesses named.
 
 The oracle (harness/ref/race.py) never looks at the model: every GET /accessories, also one in
-progress while an update lands, must carry a representation of the characteristic; after everything completed (hand-offs
+progress while an update lands, must carry a representation of the characteristic; in runs whose updates
+each landed as a whole at one point of the loop's program (the property's quantifier) the values shown by
+ALL reads, also those in progress, must be the outcome of one serial order of reads, controller writes and
+updates that respects both program orders and real time (judge_serial_order); after everything completed (hand-offs
 drained, every armed coalescing timer expired — fired the way the loop fires a due TimerHandle,
 never by calling the flush routine directly), GET /accessories (twice) and GET /characteristics
 must show the last accepted write, and every connection that was subscribed before the worker's
@@ -87,7 +90,15 @@ TRUSTED = [
     "at the loop boundary (handles returned by call_later / call_at, attributed to the connection found in the "
     "scheduling frames) and expire by running the still-scheduled, uncancelled handles as _run_once does",
     "the deterministic scheduler/tracer of this harness (sys.settrace line/opcode events, token passing), the "
-    "generators, harness/ref/race.py (oracle and EVENT parser)",
+    "generators, harness/ref/race.py (oracle, serial-order search and EVENT parser)",
+    "completeness of the access log: besides the per-case comparison with the model's accesses, once per process "
+    "the value / cache slots are wrapped in a data descriptor that sees every get / set on the characteristic under "
+    "test however it is spelled; over the warm-up programs (every operation of the alphabet) the logged accesses "
+    "must be exactly those that happened, else the tie counts as not established",
+    "Characteristic.override_properties called from the worker thread is exercised and judged by the oracle (value "
+    "sentence, serial order of the value reads) but is not in the Lean model; that the representation served "
+    "afterwards may keep superseded minValue/maxValue/minStep is counted as an observation, not judged (C20 speaks "
+    "of the value; design/audit/race.md §3)",
 ]
 
 # ------------------------------------------------------------------------------------------------
@@ -106,9 +117,34 @@ KINDS: Dict[str, Dict[str, Any]] = {
 }
 
 
+def is_override(u: Any) -> bool:
+    """A worker item {"override": {...}}: Characteristic.override_properties(properties=...) instead of set_value."""
+    return isinstance(u, dict) and "override" in u
+
+
 def is_valid(kind: str, v: Any) -> bool:
     """Predicted by construction (not by calling pyhap): is `v` accepted by set_value?"""
+    if is_override(v):
+        return True
     return v in KINDS[kind]["good"] and not isinstance(v, str)
+
+
+def worker_values(kind: str, init: Any, worker: List[Any]) -> List[Any]:
+    """The value each worker item leaves behind when the items run one after the other (by construction: a
+    set_value of a good value stores it, a rejected one stores nothing, an override of minValue / maxValue
+    clamps the current value into the new range)."""
+    out, cur = [], init
+    for u in worker:
+        if is_override(u):
+            pr = u["override"]
+            if "maxValue" in pr:
+                cur = min(cur, pr["maxValue"])
+            if "minValue" in pr:
+                cur = max(cur, pr["minValue"])
+        elif is_valid(kind, u):
+            cur = u
+        out.append(cur)
+    return out
 
 
 def payload(kind: str, v: Any) -> Optional[int]:
@@ -723,7 +759,10 @@ class Exec:
                 self.timeline.append({"t": "update", "j": j, "phase": "start"})
                 self.w_in_update = True
                 try:
-                    self.env.char.set_value(u)
+                    if is_override(u):
+                        self.env.char.override_properties(properties=dict(u["override"]))
+                    else:
+                        self.env.char.set_value(u)
                     self.worker_outcomes.append("ok")
                 except ValueError:
                     self.worker_outcomes.append("ValueError")
@@ -1007,11 +1046,20 @@ def _run_case_once(case: Dict[str, Any]) -> Dict[str, Any]:
     try:
         ex = Exec(env, case.get("switchL", []), case.get("switchW", []), case.get("start", "L"),
                   case.get("gran", "line"), case.get("wkind", "plain"))
-        updates = [fresh_object(kind, u) for u in case["worker"]]
+        updates = [u if is_override(u) else fresh_object(kind, u) for u in case["worker"]]
         epi = epilogue_for(conns)
         ex.run(case["prologue"], case["loop"], updates, epi)
         valid = [is_valid(kind, u) for u in case["worker"]]
         events = {c: ref.parse_events(tr.writes, env.aid, env.iid) for c, (_, tr) in env.conns.items()}
+        has_override = any(is_override(u) for u in case["worker"])
+        stale_meta: Dict[str, Any] = {}
+        if has_override and not ex.op_errors:
+            # OBSERVATION, not judged (C20 speaks of the value): does the representation served after completion
+            # carry the properties the characteristic has now?
+            ent = env.driver.get_accessories()["accessories"][0]["services"][env.pos[0]]["characteristics"][env.pos[1]]
+            now = env.char.properties
+            stale_meta = {k: {"served": (ent or {}).get(k), "properties": now[k]}
+                          for k in ("minValue", "maxValue", "minStep") if k in now and (ent or {}).get(k) != now[k]}
     finally:
         env.close()
     missing: List[str] = []
@@ -1040,11 +1088,12 @@ def _run_case_once(case: Dict[str, Any]) -> Dict[str, Any]:
     direct_reads = [ep_results[2]["value"]]
     ev_payload = {c: [payload(kind, v) for v in evs] for c, evs in events.items()}
     timeline = []
+    wvals = worker_values(kind, case["init"], case["worker"])
     for ev in ex.timeline:
         ev = dict(ev)
         if ev["t"] == "update":
             ev["valid"] = valid[ev["j"]]
-            ev["value"] = payload(kind, case["worker"][ev["j"]]) if ev["valid"] else None
+            ev["value"] = payload(kind, wvals[ev["j"]]) if ev["valid"] else None
         elif ev["t"] == "write":
             ev["value"] = payload(kind, ev["value"])
         timeline.append(ev)
@@ -1092,7 +1141,9 @@ def _run_case_once(case: Dict[str, Any]) -> Dict[str, Any]:
     wid = iter(ex.write_ids)
     wups = []
     for u, ok in zip(case["worker"], valid):
-        if ok:
+        if is_override(u):
+            wups.append([0, 0, False])  # (cases with an override are not sent to the model: oracle only)
+        elif ok:
             wups.append([next(wid, 0), payload(kind, u), True])
         else:
             wups.append([0, 0, False])
@@ -1125,7 +1176,7 @@ def _run_case_once(case: Dict[str, Any]) -> Dict[str, Any]:
         "line": line, "impl": impl_obs, "verdicts": verdicts, "interleaved": interleaved,
         "yields": dict(ex.yields), "yield_info": ex.yield_info, "sched_part": sched_part, "scale": scale,
         "n_ep": n_ep, "overlap": ex.overlap, "missing": missing, "timer_problem": timer_problem,
-        "atomic": not ex.update_preempted, "spy": ex.spy,
+        "atomic": not ex.update_preempted, "spy": ex.spy, "oracle_only": has_override, "stale_meta": stale_meta,
     }
 
 
@@ -1240,6 +1291,18 @@ def gen_cases(ctx: Ctx) -> List[Tuple[str, Dict[str, Any]]]:
                 cases.append((f"phased/{name}", dict(sc2, switchL=[k])))
             # ... and with the first update only
             cases.append((f"phased1/{name}", dict(sc, worker=sc["worker"][:1])))
+    # (V) the worker calls override_properties (a narrower range: value kept / value clamped) instead of
+    #     set_value, at every point of a read — oracle only (value sentence + serial order of the reads)
+    for init in (20, 80):
+        for name, prol, prog in (("toHAP-cold", [], [["toHAP"]]), ("toHAP-warm", [["toHAP"]], [["toHAP"]]),
+                                 ("toHAPnv-cold", [], [["toHAPnv"], ["toHAP"]]), ("getValue", [], [["getValue"]])):
+            sc = base_case("int", init, [], prol, prog, [{"override": {"maxValue": 50}}])
+            nl, nw, solo = solo_counts(sc)
+            for k in sweep_points(solo["yield_info"]["L"]):
+                cases.append((f"override/{name}", dict(sc, switchL=[k])))
+            sc2 = dict(sc, worker=[{"override": {"maxValue": 50}}, 21])
+            for k in sweep_points(solo["yield_info"]["L"])[::3]:
+                cases.append((f"override-then-set/{name}", dict(sc2, switchL=[k])))
     # (O) the worker thread runs an asyncio loop of its own while it updates (asyncio.run inside a sync run())
     for kind in (["int"] if ctx.quick else kinds_sweep):
         for name, sc in scenarios(kind):
@@ -1472,6 +1535,12 @@ def _evaluate(ctx: Ctx, cases: List[Tuple[str, Dict[str, Any]]], correspond: boo
                     {"accesses_logged": r["impl"]["trace"]},
                 )
             continue
+        if r.get("oracle_only"):
+            st.hit("outcome", "override_properties from the worker thread (value sentence judged by the oracle; not in the model)")
+            if r.get("stale_meta"):
+                st.hit("outcome", "observation (not judged): representation served after completion keeps superseded "
+                                  "minValue/maxValue/minStep")
+            continue
         if r.get("overlap"):
             # outside the model's Serial assumption and outside C20's oracle (C12's known finding)
             st.hit("outcome", "controller-write-overlaps-worker-update(left to C12, not judged)")
@@ -1514,7 +1583,8 @@ def run(ctx: Ctx):
         "connection's queue with its timer armed, then controller write by the subscriber / by another connection, "
         "unsubscribe+resubscribe, repeated subscribe, timer expiry on a full or emptied queue, direct flush; a "
         "second update lands at every point of that program; phased1/: no second update), the single / reverse "
-        "sweeps with a worker whose thread runs an asyncio loop of its own (ownloop/, ownloop-reverse/), random "
+        "sweeps with a worker whose thread runs an asyncio loop of its own (ownloop/, ownloop-reverse/), a worker "
+        "that calls override_properties (override/, override-then-set/: oracle only), random "
         "programs under "
         "random schedules (random). A case is non-trivial "
         "if the shared-variable accesses of the two threads actually interleave (neither thread's accesses all "
@@ -1562,6 +1632,9 @@ def replay(ctx: Ctx, r):
     _print_run(r, res)
     for sig, desc in res["verdicts"]:
         print("FAILS:", sig, desc)
+    if res.get("stale_meta"):
+        print("OBSERVATION (not judged by C20, which speaks of the value): after everything completed, GET /accessories "
+              "serves a representation whose properties differ from the characteristic's properties:", res["stale_meta"])
     print("verdict:", "property violated on this input" if res["verdicts"] else "holds on this input")
     return 1 if res["verdicts"] else 0
 
